@@ -206,7 +206,7 @@ func c37Fields(c *eng.Ctx, merge *ssa.Function) {
 				gh, gl := eng.Guards(fromHigher), eng.Guards(fromLower)
 				var test *eng.Atom
 				for i := range gh {
-					if strings.Contains(gh[i].Expr, "p1."+f.Name()) {
+					if gh[i].Via == "" && strings.Contains(gh[i].Expr, "p1."+f.Name()) {
 						test = &gh[i]
 					}
 				}
